@@ -1190,10 +1190,14 @@ pub fn run(ctx: &mut Ctx) {
         // Miri slice: the regression witnesses plus a few random programs per shard
         // (the evaluator's ArrayVec-backed stacks are the unsafe code being interpreted)
         regressions(ctx);
+        ctx.slow_stride = 4;
         witnesses(ctx);
         random_programs(ctx);
+        ctx.slow_stride = 1;
         return;
     }
+    // the asan profile runs every 5th case of each stream
+    ctx.asan_stride = 5;
     regressions(ctx);
     witnesses(ctx);
     decode_catalogue(ctx);
